@@ -1,10 +1,15 @@
 import OpcuaModel.Base.Loop
 import OpcuaModel.Model.Tamper
+import OpcuaModel.Model.TamperChan
 /-
   Driver for C09.
     vad <enc 0|1> <H> <RS> <S> <v 0|1> <dec aes|ok|fail> <hex b>
         → ok <dataLen> | err | panic <site>
     carve <modeNone 0|1> <policyNone 0|1> <asym 0|1> → raw | secured
+    chan <modeNone> <modeSE> <policyNone> <opening|-> <derive|none> <chanID> <n> <inst>*n <hex frame>
+        → deliver <seqHdrHex> <bodyLen> <policyNone'> | err <policyNone'> | eof | panic
+      inst = RS:S:v:mode:plainhex   (mode id|aes|fail; plain `-` = decryption is the identity);
+      the n instances are those stored for <chanID>, oldest first
   `b` is the chunk in its post-decryption form (header ‖ plaintext); `dec`
   selects how `c.algo.Decrypt` behaves on `b[H:]`: `aes` = length preserving,
   refuses < 16 bytes and non-multiples of 16 (uapolicy/crypto_aes.go), `ok` =
@@ -24,7 +29,47 @@ def decOf : String → Option (Bytes → Option Bytes)
   | "fail" => some fun _ => none
   | _ => none
 
+def noneURI : Bytes := "http://opcfoundation.org/UA/SecurityPolicy#None".toUTF8.toList
+
+def instOf (tok : String) : Option Inst :=
+  match tok.splitOn ":" with
+  | [rs, s, v, mode, plain] =>
+    match rs.toNat?, s.toNat?, (if plain = "-" then some none else (fromHex plain).map some) with
+    | some RS, some S, some pl =>
+      let out : Bytes → Bytes := fun x => pl.getD x
+      let dec : Option (Bytes → Option Bytes) :=
+        if mode = "id" then some fun x => some (out x)
+        else if mode = "aes" then some fun x => if 16 ≤ x.length ∧ x.length % 16 = 0 then some (out x) else none
+        else if mode = "fail" then some fun _ => none
+        else none
+      dec.map fun d => { RS := RS, S := S, dec := d, verify := fun _ _ => v == "1" }
+    | _, _, _ => none
+  | _ => none
+
+def mkState (a b c : Bool) (op : Option Inst) (cid : Nat) (il : List Inst) : ChanState :=
+  ⟨a, b, c, op, fun k => if k = cid then il else []⟩
+
+def handleChan (mn mse pn opening derive chanID : String) (rest : List String) : String :=
+  match chanID.toNat?, rest.reverse with
+  | some cid, hex :: revInsts =>
+    let insts := revInsts.reverse.drop 1
+    match fromHex hex, insts.mapM instOf,
+        (if opening = "-" then some none else (instOf opening).map some),
+        (if derive = "none" then some none else (instOf derive).map some) with
+    | some f, some il, some op, some dv =>
+      let st : ChanState := mkState (mn == "1") (mse == "1") (pn == "1") op cid il
+      let (st', r) := readChunk (fun _ _ => dv) (fun u => u == noneURI) st f
+      let p := if st'.policyNone then "1" else "0"
+      match r with
+      | .deliver sh body => s!"deliver {toHex sh} {body.length} {p}"
+      | .err => s!"err {p}"
+      | .eof => "eof"
+      | .panic _ => "panic"
+    | _, _, _, _ => "bad-op"
+  | _, _ => "bad-op"
+
 def handle : List String → String
+  | "chan" :: mn :: mse :: pn :: opening :: derive :: chanID :: rest => handleChan mn mse pn opening derive chanID rest
   | ["vad", e, h, rs, s, v, d, hex] =>
     match h.toNat?, rs.toNat?, s.toNat?, decOf d, fromHex hex with
     | some H, some RS, some S, some dec, some b =>
